@@ -366,19 +366,23 @@ func irisEqual(i1, i2 IRI, checkScheme bool) bool {
 			return false
 		}
 		for _, uqvv := range uqv {
-			eq := false
-			for _, uwqvv := range uwqv {
-				if uwqvv == uqvv {
-					eq = true
-					continue
-				}
-			}
-			if !eq {
+			if countValues(uqv, uqvv) != countValues(uwqv, uqvv) {
 				return false
 			}
 		}
 	}
 	return true
+}
+
+// countValues returns how many times v appears in the vals slice
+func countValues(vals []string, v string) int {
+	cnt := 0
+	for _, vv := range vals {
+		if vv == v {
+			cnt++
+		}
+	}
+	return cnt
 }
 
 // Equals verifies if our receiver IRI is equals with the "with" IRI
